@@ -7,7 +7,7 @@ idx = json.load(open("/verif/mutants/index.json"))
 res_path = "/verif/mutants/results.json"
 results = json.load(open(res_path)) if os.path.exists(res_path) else {}
 only = sys.argv[1:]
-env = dict(os.environ, CARGO_NET_OFFLINE="true")
+env = dict(os.environ, CARGO_NET_OFFLINE="true", VERIF_EVIDENCE_DIR="/tmp/evidence_trials")
 for m in idx:
     if only and m["name"] not in only:
         continue
